@@ -403,6 +403,10 @@ def c06(obs):
             if e == 'any': continue
             if e != gg and not (e is not None and gg is not None and e[:4] == gg[:4] and e[4] == '*'):
                 v.append(('C06', 'ReplaceSource: output character %d (%r) should be attributed to %r but the stream says %r' % (i, src[i], e, gg))); return v
+    if tree['kind'] in ('concat', 'concat_add', 'replace') and not v:
+        # the composite's attribution as its map() reports it: the stream compared above and map() must agree at every position
+        # (the C03 relation, columns=true), so what the children attribute is preserved on both ways of asking
+        v += [('C06', 'composite, through map(): ' + msg) for (_, msg) in c03(obs) if msg.startswith('columns=true: position')]
     return v
 
 
@@ -723,6 +727,11 @@ def c09(obs):
                 want = outer_contents.get(name)
             if want is not None and content != want:
                 v.append(('C09', '%s: file %r is announced with content %r, expected %r' % (k, name, content, want)))
+    # the composed attribution as map() reports it (both column settings): map() must attribute every position as the
+    # chunk stream of the same object does (the C03 relation) - a combined map always has a mapped chunk, so the
+    # 'map is None' clause of C03 is not involved
+    if obs.get('source') is not None:
+        v += [('C09', 'composed attribution through map(): ' + msg) for (_, msg) in c03(obs) if 'although the chunk stream has' not in msg]
     return v
 
 
@@ -733,3 +742,27 @@ ALL['C05'] = c05
 ALL['C13'] = c13
 ALL['C10'] = lambda obs: c13(obs, 'C10')
 ALL['C06'] = c06
+
+
+# ------------------------------------------------------------------------------------------ equality of two observations
+def same_obs(k, a, b):
+    if k in ('source',): return a.get('source') == b.get('source')
+    if k == 'size': return a.get('views') == b.get('views')
+    if k.startswith('map'):
+        ma, mb = a['maps'].get('c' + k[3]), b['maps'].get('c' + k[3])
+        if (ma is None) != (mb is None): return False
+        if ma is None: return True
+        def contents(mp):
+            sc = mp.get('sourcesContent') or []
+            return {n: ((sc[i] if i < len(sc) else None) or '') for i, n in enumerate(mp['sources'])}
+        return map_segs(ma) == map_segs(mb) and ma['sources'] == mb['sources'] and ma['names'] == mb['names'] and contents(ma) == contents(mb)
+    sa, sb = a['streams'][k], b['streams'][k]
+    if sa['end'] != sb['end']: return False
+    ca = {e[2]: (e[3] or '') for e in sa['events'] if e[0] == 'source'}; cb = {e[2]: (e[3] or '') for e in sb['events'] if e[0] == 'source'}
+    if ca != cb: return False
+    ta = ''.join(e[1] or '' for e in chunks_of(sa['events'])); tb = ''.join(e[1] or '' for e in chunks_of(sb['events']))
+    if ta != tb: return False
+    # attribution per chunk start (a replayed stream may be cut differently: compare through positions)
+    pos, _ = positions(ta)
+    aa, ab = stream_attr(sa), stream_attr(sb)
+    return all(lookup(aa, l, c) == lookup(ab, l, c) for (l, c) in pos) if ta else True
